@@ -1,5 +1,7 @@
 import JugModel.Props.C03
+import JugModel.Props.WorkerBridge
 #print axioms Jug.C03.run_after_deps
 #print axioms Jug.C03.blocked_while_dep_missing
 #print axioms Jug.C03.args_are_stored_results
 #print axioms Jug.C03.result_is_function_of_stored
+#print axioms Jug.WorkerBridge.worker_conforms
